@@ -158,6 +158,10 @@ pub struct Script {
     pub algo_calls: usize,
     pub disconnects: Vec<ExchangeId>,
     pub disabled_calls: usize,
+    /// the close-positions strategy of this step: false = the repository's default (market orders
+    /// only), true = a CUSTOM strategy that first cancels the resting orders of the matching
+    /// instruments and then closes with the same market orders (event `ClosePositionsCF`)
+    pub close_cancel_first: bool,
 }
 
 #[derive(Debug, Clone)]
@@ -203,10 +207,17 @@ impl ClosePositionsStrategy for ScriptStrategy {
     {
         // the repository's default close-positions logic
         let fresh: Option<&std::sync::atomic::AtomicUsize> = self.fresh_close_cids.as_deref();
-        close_open_positions_with_market_orders(&self.id, state, filter, move |_| match fresh {
+        let (no_cancels, opens) = close_open_positions_with_market_orders(&self.id, state, filter, move |_| match fresh {
             None => ClientOrderId::new(CLOSE_CID),
             Some(n) => ClientOrderId::new(format!("{CLOSE_CID}{}", n.fetch_add(1, std::sync::atomic::Ordering::Relaxed))),
-        })
+        });
+        // ... preceded, for the custom "cancel first" strategy, by cancels of the matching instruments' resting orders
+        // (built the way the engine's own cancel-orders action builds them)
+        let mut cancels: Vec<OrderRequestCancel<ExchangeIndex, InstrumentIndex>> = no_cancels.into_iter().collect();
+        if self.script.lock().close_cancel_first {
+            cancels.extend(state.instruments.orders(filter).flat_map(|orders| barter::engine::state::order::manager::OrderManager::orders(orders).filter_map(Order::to_request_cancel)));
+        }
+        (cancels, opens.into_iter().collect::<Vec<_>>())
     }
 }
 
@@ -281,6 +292,11 @@ impl Kit {
             ScriptRisk { refuse: refuse.clone() },
         );
         Self { engine, links, script, refuse }
+    }
+
+    /// Select the close-positions strategy for the event about to be processed.
+    pub fn set_close_mode(&mut self, ev: &Value) {
+        self.script.lock().close_cancel_first = ev["a"].as_str() == Some("ClosePositionsCF");
     }
 
     /// Install the step's environment: link fault states, the strategy's output, risk refusals.
@@ -522,7 +538,8 @@ pub fn make_event(e: &Value) -> EngineEvent<DataKind> {
         "SendOpens" => EngineEvent::Command(Command::SendOpenRequests(OneOrMany::from_iter(e["reqs"].as_array().unwrap().iter().map(open_req)))),
         "SendCancels" => EngineEvent::Command(Command::SendCancelRequests(OneOrMany::from_iter(e["reqs"].as_array().unwrap().iter().map(cancel_req)))),
         "CancelOrders" => EngineEvent::Command(Command::CancelOrders(filter_of(&e["filter"]))),
-        "ClosePositions" => EngineEvent::Command(Command::ClosePositions(filter_of(&e["filter"]))),
+        // ClosePositionsCF: the same command, handled by the custom cancel-first close strategy (Kit::set_close_mode)
+        "ClosePositions" | "ClosePositionsCF" => EngineEvent::Command(Command::ClosePositions(filter_of(&e["filter"]))),
         "Shutdown" => EngineEvent::shutdown(),
         a => usage(&format!("unknown event action {a}")),
     }
